@@ -325,22 +325,18 @@ func CalculateRewards(
 		lastPoolID = poolID
 		// Normalize share
 		normalizedShare := rawShare / totalShare
-		totalPoolRewards := uint64(float64(pots.Rewards) * normalizedShare)
+		// float64 rounding must never hand out more than what is left of the pot
+		totalPoolRewards := min(
+			uint64(float64(pots.Rewards)*normalizedShare),
+			pots.Rewards-totalDistributed,
+		)
 		poolRewardAmounts[poolID] = totalPoolRewards
 		totalDistributed += totalPoolRewards
 	}
 
-	// Adjust the last pool's total rewards to ensure sum equals reward pot exactly
+	// Give the rounding remainder to the last pool so the sum equals the reward pot exactly
 	if totalDistributed != pots.Rewards && len(poolRewardAmounts) > 0 {
-		// Calculate adjustment - this may overflow in extreme cases, but Cardano values are reasonable
-		adjustment := int64(
-			pots.Rewards,
-		) - int64(
-			totalDistributed,
-		) // #nosec G115
-		poolRewardAmounts[lastPoolID] = uint64(
-			int64(poolRewardAmounts[lastPoolID]) + adjustment,
-		) // #nosec G115
+		poolRewardAmounts[lastPoolID] += pots.Rewards - totalDistributed
 	}
 
 	// Now distribute rewards for each pool
@@ -461,10 +457,14 @@ func distributePoolRewards(
 
 	if totalPoolStake > 0 {
 		ownerStakeRatio := float64(ownerStake) / float64(totalPoolStake)
-		operatorRewards += uint64(
-			float64(
-				totalPoolRewards-poolCost,
-			) * (margin + (1.0-margin)*ownerStakeRatio),
+		// float64 rounding must not push the operator above the pool total
+		operatorRewards += min(
+			uint64(
+				float64(
+					totalPoolRewards-poolCost,
+				)*(margin+(1.0-margin)*ownerStakeRatio),
+			),
+			totalPoolRewards-poolCost,
 		)
 	} else {
 		// If no stake, operator gets all rewards above cost
@@ -482,14 +482,18 @@ func distributePoolRewards(
 		for stakeKey, stake := range delegatorStake {
 			// Only reward registered stake keys
 			if snapshot.StakeRegistrations[stakeKey] {
-				reward := uint64(
-					float64(
-						stake,
-					) / float64(
-						totalPoolStake,
-					) * float64(
-						stakeholderRewardsTotal,
+				// never assign more than what is left for stakeholders
+				reward := min(
+					uint64(
+						float64(
+							stake,
+						)/float64(
+							totalPoolStake,
+						)*float64(
+							stakeholderRewardsTotal,
+						),
 					),
+					stakeholderRewardsTotal-assigned,
 				)
 				delegatorRewards[stakeKey] = reward
 				assigned += reward
